@@ -3,13 +3,15 @@ import RustCcModel.Proofs.WeakInv8
 namespace RustCc
 open World
 
+variable {ex : Bool}
+
 set_option maxHeartbeats 8000000 in
-theorem stepFrame_weakH_neutral (c : Cfg) (w : World) (f : Frame) (h : WeakH w [])
+theorem stepFrame_weakH_neutral (c : Cfg) (w : World) (f : Frame) (h : WeakH ex w [])
     (hf : match f with
       | .script .. | .afterDropValue .. | .dropFields .. | .deallocDrop .. | .newAlloc .. | .newCyclicAlloc .. | .newCyclicEnd ..
       | .mapAlloc .. | .regInsert .. => False
       | _ => True) :
-    WeakH (stepFrame c w f) [] := by
+    WeakH ex (stepFrame c w f) [] := by
   cases f with
   | script _ _ _ _ | afterDropValue _ _ | dropFields _ _ | deallocDrop _ _ _ | newAlloc _ _ | newCyclicAlloc _ _ _ _
   | newCyclicEnd _ _ _ _ | mapAlloc _ | regInsert _ _ _ _ => cases hf
@@ -19,11 +21,11 @@ theorem stepFrame_weakH_neutral (c : Cfg) (w : World) (f : Frame) (h : WeakH w [
     all_goals (wneutral h)
 
 set_option maxHeartbeats 8000000 in
-theorem unwindFrame_weakH_neutral (c : Cfg) (w : World) (f : Frame) (h : WeakH w [])
+theorem unwindFrame_weakH_neutral (c : Cfg) (w : World) (f : Frame) (h : WeakH ex w [])
     (hf : match f with
       | .newCyclicEnd .. => False
       | _ => True) :
-    WeakH (unwindFrame c w f) [] := by
+    WeakH ex (unwindFrame c w f) [] := by
   cases f with
   | newCyclicEnd _ _ _ _ => cases hf
   | _ =>
